@@ -463,6 +463,14 @@ def dtype_of(case, name):
     return ((case.get("dtypes") or {}).get(name)) or "float64"
 
 
+def _flag(b, case):
+    """FLAG TYPE class: a boolean option arrives as a Python bool or — from a numpy comparison, an array element or pandas
+    metadata — as numpy.bool_; both mean the same thing (`is_angular is True` would miss the second)."""
+    import zlib
+    h = zlib.crc32(repr(sorted((k, repr(v)) for k, v in case.items())).encode())
+    return bool(b) if h % 3 == 0 else np.bool_(b)
+
+
 def is_angular_kind(kind):
     return kind.endswith("_ang")
 
@@ -666,12 +674,12 @@ def run_impl(case):
                 fs, os_ = pd.Series(f.values), pd.Series(o.values)
                 base = kind[len("pandas_"):]
                 ang = base.endswith("_ang")
-                res = getattr(spc, base.replace("_ang", ""))(fs, os_, is_angular=ang)
+                res = getattr(spc, base.replace("_ang", ""))(fs, os_, is_angular=_flag(ang, case))
                 return {"cells": {"value": [float(res)]}}
             if case["weights"] is not None:
                 kw["weights"] = mk(case["weights"])
             if kind in ("mse", "mae", "rmse", "mse_ang", "mae_ang", "rmse_ang"):
-                res = getattr(sc, kind.replace("_ang", ""))(f, o, is_angular=kind.endswith("_ang"), **kw)
+                res = getattr(sc, kind.replace("_ang", ""))(f, o, is_angular=_flag(kind.endswith("_ang"), case), **kw)
             elif kind in ("additive_bias", "mean_error", "multiplicative_bias", "pbias"):
                 res = getattr(sc, kind)(f, o, **kw)
             elif kind == "quantile":
